@@ -651,3 +651,49 @@ def explain_order(*a):
 
 
 EXPLAIN["_order"] = explain_order
+
+
+# ------------------------------------------------------------------ C07 file level: the linter reads the written FILE back
+# (whatever line-ending convention, byte order mark and final newline the file has)
+def fileread_story(k0, k1, e, final_nl, bom):
+    why, items, raw, got = file_story(k0, k1, e, final_nl, bom)
+    if why is not None or got == raw:
+        return None, items, raw, got, None  # refusals and file-level defects are C08's / C11's subject
+    data = got.encode("utf-8")
+    try:
+        text = ex.decoded_text_from_binary(io.BytesIO(data), size=4096)
+        info = ex.extract_reuse_info(text)
+    except Exception as exc:  # noqa
+        return "the linter cannot read the file annotate wrote: " + type(exc).__name__, items, raw, got, None
+    seen = (sorted(info.copyright_lines), sorted(str(x) for x in info.spdx_expressions), sorted(info.contributor_lines))
+    if REQUEST in ("full", "copyright-only", "two-years") and NEW_C not in info.copyright_lines:
+        return "the requested copyright notice is not read back from the written file", items, raw, got, seen
+    if REQUEST in ("full", "licence-only") and NEW_L not in seen[1]:
+        return "the requested licence is not read back from the written file", items, raw, got, seen
+    if REQUEST in ("full", "contributor-only") and NEW_F not in info.contributor_lines:
+        return "the requested contributor is not read back from the written file", items, raw, got, seen
+    return None, items, raw, got, seen
+
+
+def _fileread(k0: int, k1: int, e: int, final_nl: bool, bom: bool) -> bool:
+    """
+    pre: _member(k0, ALLOWED) and _member(k1, ALLOWED) and _member(e, [0, 1, 2])
+    post: _
+    """
+    return fileread_story(k0, k1, e, final_nl, bom)[0] is None
+
+
+def _fileread_reach(k0: int, k1: int, e: int, final_nl: bool, bom: bool) -> bool:
+    """
+    pre: _member(k0, ALLOWED) and _member(k1, ALLOWED) and _member(e, [0, 1, 2])
+    post: False
+    """
+    return fileread_story(k0, k1, e, final_nl, bom)[0] is None
+
+
+def explain_fileread(*a):
+    why, items, raw, got, seen = fileread_story(*a)
+    return {"style": STYLE.__name__, "multi": MULTI, "body": items, "text": raw, "written": got, "read_back": seen, "why": why}
+
+
+EXPLAIN["_fileread"] = explain_fileread
